@@ -616,7 +616,11 @@ def simplify_boolean_expressions(source: str) -> str:
         try:
             value = core.literal_value(node)
         except ValueError:
-            if isinstance(operator, ast.Eq) and core.unparse(node.left) == core.unparse(comparator):
+            if (
+                isinstance(operator, ast.Eq)
+                and core.unparse(node.left) == core.unparse(comparator)
+                and not core.has_side_effect(node.left, constants.SAFE_CALLABLES)
+            ):
                 yield node, ast.Constant(value=True, kind=None)
 
             continue
